@@ -422,6 +422,25 @@ func execHistory(o *out, f [][]int) []int {
 				}
 			}
 		}
+		// lookups on the current state: Get is the FIRST attribute of the type (the very slice), Contains is
+		// membership, an absent type is not found - whatever was looked up in earlier states of this Message
+		if err == nil && !stale && len(m.Attributes) <= 64 {
+			seen := map[stun.AttrType]bool{}
+			for _, a := range m.Attributes {
+				if seen[a.Type] {
+					continue
+				}
+				seen[a.Type] = true
+				v, gerr := m.Get(a.Type)
+				if gerr != nil || len(v) != len(a.Value) || (len(v) > 0 && &v[0] != &a.Value[0]) || !m.Contains(a.Type) {
+					o.fail("get-is-not-the-first-attribute", fmt.Sprintf("%s step=%d type=%#x", caseLine(), i, int(a.Type)))
+					break
+				}
+			}
+			if _, gerr := m.Get(0x7777); !seen[0x7777] && (gerr == nil || m.Contains(0x7777)) {
+				o.fail("get-finds-an-absent-type", fmt.Sprintf("%s step=%d", caseLine(), i))
+			}
+		}
 		// C03 oracle (B): in synchronised states whose size fits the 16-bit length field
 		if (activeProp == "" || activeProp == "C03") && synced && err == nil && m.Length <= 65535 {
 			if why := wellFormed(m); why != "" {
@@ -1041,6 +1060,14 @@ func cloneMarshalMonitor(o *out, r *rng, n int) {
 		if stun.Decode(data, src) != nil {
 			continue
 		}
+		if i%2 == 1 {
+			// a source whose buffer has room to spare (several times its length): whatever CloneTo / MarshalBinary
+			// hand out must not live in that room
+			src = &stun.Message{Raw: make([]byte, 0, 3*len(data)+r.intn(300))}
+			if stun.Decode(data, src) != nil {
+				continue
+			}
+		}
 		dst := &stun.Message{Raw: fill(r, r.intn(200), 1)[:0]}
 		if src.CloneTo(dst) != nil {
 			o.fail("clone-fails", "x "+fHex(data))
@@ -1057,6 +1084,28 @@ func cloneMarshalMonitor(o *out, r *rng, n int) {
 		src.Reset()
 		if fmt.Sprint(serMsg(dst), mb, gb) != snap {
 			o.fail("clone-marshal-aliasing", "x "+fHex(data))
+		}
+		// the other direction: scribbling over the results (up to their capacity) leaves the source alone, also
+		// where the source grows into afterwards
+		src2 := &stun.Message{Raw: make([]byte, 0, 3*len(data)+r.intn(300))}
+		twin := &stun.Message{Raw: make([]byte, 0, cap(src2.Raw))}
+		if stun.Decode(data, src2) == nil && stun.Decode(data, twin) == nil {
+			dst2 := new(stun.Message)
+			_ = src2.CloneTo(dst2)
+			mb2, _ := src2.MarshalBinary()
+			gb2, _ := src2.GobEncode()
+			for _, b := range [][]byte{mb2, gb2, dst2.Raw} {
+				b = b[:cap(b)]
+				for k := range b {
+					b[k] = 0xFF
+				}
+			}
+			val := r.bytes(r.intn(40))
+			src2.Add(stun.AttrSoftware, val)
+			twin.Add(stun.AttrSoftware, val)
+			if fmt.Sprint(serMsg(src2)) != fmt.Sprint(serMsg(twin)) {
+				o.fail("clone-marshal-aliasing", "x writing into the results of CloneTo / MarshalBinary / GobEncode changed the source "+fHex(data))
+			}
 		}
 		o.count("clone-marshal-checked")
 	}
